@@ -182,8 +182,19 @@ def step (d : DS) (line : String) : DS × String :=
       else match (t.drop 1).toString.splitOn "/" with
         | [a, b] => Gen.Draw.normal ⟨(if a.startsWith "-" then - ((a.drop 1).toString.toNat! : Int) else (a.toNat! : Int)), b.toNat!⟩
         | _ => Gen.Draw.choice 0)
-    (match Gen.run { numPipelines := np.toNat!, waitMean := wm.toNat! } nticks.toNat! {} ds with
-     | none => (d, "{\"ok\":true,\"fits\":false}")
+    let P : Gen.Params := { numPipelines := np.toNat!, waitMean := wm.toNat! }
+    (match Gen.run P nticks.toNat! {} ds with
+     | none =>
+       -- the stream ran out or did not fit: report the ticks that could be replayed
+       let rec pre (n : Nat) (s : Gen.State) (ds : List Gen.Draw) (acc : List (List Gen.PipeOut)) : List (List Gen.PipeOut) :=
+         match n with
+         | 0 => acc
+         | n + 1 => match Gen.tick P s ds with
+           | none => acc
+           | some (s', ps, ds') => pre n s' ds' (acc ++ [ps])
+       let out := pre nticks.toNat! {} ds []
+       (d, "{\"ok\":true,\"fits\":false,\"out\":" ++
+         jarr (out.map (fun ps => jarr (ps.map (fun p => jarr [toString p.id, toString p.prio, jarr (p.protos.map toString)])))) ++ "}")
      | some (out, rest) =>
        (d, "{\"ok\":true,\"fits\":true,\"left\":" ++ toString rest.length ++ ",\"out\":" ++
          jarr (out.map (fun ps => jarr (ps.map (fun p => jarr [toString p.id, toString p.prio, jarr (p.protos.map toString)])))) ++ "}"))
